@@ -246,6 +246,34 @@ theorem merge_existing_groups_null (fuel : Nat) (m : Mem) (a0 a1 a2 a3 : Val) (s
   rcases h with rfl | ⟨⟨b, rfl⟩, rfl⟩ <;>
     simp [exec, testOf, evalE, evalL, readPlace, writePlace, convert, wS, truth, boolVal, bind, Except.bind, Except.map]
 
+/-- the blocks of the strings of the group list are what the object says, whoever describes it -/
+theorem GlMem.fst_unique {m : Mem} {bk bl bl' : Nat} {gl gl' : List (Nat × List UInt8)} (h : GlMem m bk bl gl) (h' : GlMem m bk bl' gl') :
+    bl = bl' ∧ gl.map (·.1) = gl'.map (·.1) := by
+  obtain ⟨kb, k1, k2, k3, k4⟩ := h.kf
+  obtain ⟨kb', k1', k2', k3', k4'⟩ := h'.kf
+  rw [k1] at k1'; injection k1' with hk; subst hk
+  rw [k3] at k3'; injection k3' with h3; injection h3 with hbl _
+  rw [k4] at k4'; injection k4' with h4; injection h4 with hlen
+  have hlen' : gl.length = gl'.length := by omega
+  subst hbl
+  obtain ⟨gb, g1, g2, g3, g4⟩ := h.arr
+  obtain ⟨gb', g1', g2', g3', g4'⟩ := h'.arr
+  rw [g1] at g1'; injection g1' with hg; subst hg
+  refine ⟨rfl, List.ext_getElem (by simp [hlen']) (fun i hi hi' => ?_)⟩
+  simp only [List.length_map] at hi hi'
+  have e1 := (g4 i hi).1
+  have e2 := (g4' i hi').1
+  rw [e1] at e2; injection e2 with e2; injection e2 with e2
+  simp [e2]
+
+theorem GlMem.mem_fst {m : Mem} {bk bl bl' : Nat} {gl gl' : List (Nat × List UInt8)} (h : GlMem m bk bl gl) (h' : GlMem m bk bl' gl')
+    {x : Nat × List UInt8} (hx : x ∈ gl') : ∃ y, y ∈ gl ∧ y.1 = x.1 := by
+  have hu := (h.fst_unique h').2
+  have : x.1 ∈ gl'.map (·.1) := List.mem_map.2 ⟨x, hx, rfl⟩
+  rw [← hu] at this
+  obtain ⟨y, hy, hyx⟩ := List.mem_map.1 this
+  exact ⟨y, hy, hyx⟩
+
 /-- the array under construction, whatever the frame of the loop that fills it: `start` entries were there, the copies of `sel`
     stand behind them, the destination lists their groups, everything else of the memory `m0` is as it was -/
 structure ArrInv (m0 : Mem) (bk bl0 fa : Nat) (names0 : List (List UInt8)) (gl0len cap start : Nat) (ablk0 : Block)
@@ -294,7 +322,13 @@ theorem ArrInv.append {m0 : Mem} {bk bl0 fa cell : Nat} {names0 : List (List UIn
     ∃ m', exec fuel (.seq (.inl (some (.var t)) .ptr (.cons (.load (.var 0) .ptr) (.cons srcE .nil)) 3 LeafFns.cpy_file_entry.body)
           (.expr (.call "copy_words" (.cons (.sidx (.load (.slot (.load (.var 1) .ptr) 0) .ptr) idxE 7) (.cons (.load (.var t) .ptr) (.cons (.lit 7 .u64) .nil))))))
         { mem := M, loc := loc } = .normal { mem := m', loc := loc2 } ∧
-      ArrInv m0 bk bl0 fa names0 gl0len cap start ablk0 (sel ++ [e]) m' ∧ M.length ≤ m'.length := by
+      ArrInv m0 bk bl0 fa names0 gl0len cap start ablk0 (sel ++ [e]) m' ∧ M.length ≤ m'.length ∧
+      -- the value of the new element has a block of its own, made in this step
+      (∀ bv, m'.loadSlot fa (((7 * (start + sel.length) : Nat) : Int) + 2) = .ok (.ptr bv 0) → M.length < bv ∧
+        (∀ k : Nat, k < 5 → k ≠ 2 → m'.loadSlot fa (((7 * (start + sel.length) : Nat) : Int) + (k : Int)) ≠ .ok (.ptr bv 0)) ∧
+        ∀ bl3 gl3, GlMem m' bk bl3 gl3 → bl3 ≠ bv ∧ ∀ x, x ∈ gl3 → x.1 ≠ bv) ∧
+      (∀ b, b < M.length → b ≠ bk → b ∉ [bk, bl0, fa] → (∀ bl3 gl3, GlMem M bk bl3 gl3 → b ≠ bl3) → m'[b]? = M[b]?) ∧
+      (∀ ablkM ablk', M[fa]? = some ablkM → m'[fa]? = some ablk' → ∀ k, k < 7 * (start + sel.length) → ablk'.slots[k]? = ablkM.slots[k]?) := by
   obtain ⟨bl', gl', d1, d2, d3, d4, d5, d6, d7, d8⟩ := h.dest
   obtain ⟨ablk, a1, a2, a3, a4, a5, a6⟩ := h.arr
   obtain ⟨cblk, c1, c2, c3⟩ := C.cellb
@@ -312,11 +346,22 @@ theorem ArrInv.append {m0 : Mem} {bk bl0 fa cell : Nat} {names0 : List (List UIn
     exact ⟨hav.1, hbl'ne b hb hav.2.1⟩)
   have hfalt := C.fa_lt
   have hgrow : m0.length ≤ M.length := h.grows
-  obtain ⟨m', bl'', gl'', hex, hEnt, hG', hnames, hfr, ⟨ablk', b1, b2, b3, b4, b5, b6⟩, hlen', hblor, hkw', hne', hd', hgll⟩ :=
+  obtain ⟨m', bl'', gl'', hex, hEnt, hG', hnames, hfr, ⟨ablk', b1, b2, b3, b4, b5, b6⟩, hlen', hblor, hkw', hne', hd', hgll, hfreshv⟩ :=
     C_fe_append M bk bl' cell fa bs os gl' e loc loc2 srcE idxE t (start + sel.length) cap
       d1 hE d3 d4 d5 (by omega) hline fuel (by omega) hl0 hl1 ht ht1 hsrc hidx hl2t
       cblk hcM c2 c3 ⟨hcav.1, hbl'ne cell hclt hcav.2.1⟩ ablk a1 a2 a3 a5 a4 ⟨C.fa_ne.1, hbl'ne fa C.fa_lt C.fa_ne.2⟩ hroom
-  refine ⟨m', hex, ?_, hlen'⟩
+  refine ⟨m', hex, ?_, hlen', fun bv hbv => ?_, fun b hb h1 hav hnb => ?_, fun ablkM ablk2 hM2 hm2 k hk => ?_⟩
+  rotate_left
+  · obtain ⟨f1, f2, f4, f3⟩ := hfreshv bv hbv
+    refine ⟨f1, f2, fun bl3 gl3 hG3 => ⟨?_, fun x hx => ?_⟩⟩
+    · rw [← (hG'.fst_unique hG3).1]; exact f4
+    · obtain ⟨y, hy, hyx⟩ := hG'.mem_fst hG3 hx
+      rw [← hyx]; exact f3 y hy
+  · simp only [List.mem_cons, List.not_mem_nil, or_false, not_or] at hav
+    exact hfr b hb h1 (hnb bl' gl' d1) hav.2.2
+  · rw [a1] at hM2; injection hM2 with hM2; subst hM2
+    rw [b1] at hm2; injection hm2 with hm2; subst hm2
+    exact b6 k (Or.inl hk)
   have hbl''ne : ∀ b, b < M.length → b ≠ bl' → b ≠ bl'' := by
     intro b hb hne
     rcases hblor with e | e
@@ -526,7 +571,7 @@ theorem mn_round {m0 : Mem} {bk bl0 fa cell bu bua be bea bg : Nat} {us es : Lis
           simpa [meLoc] using mn_idx mm (.ptr bk 0) (.ptr cell 0) (.ptr bu 0) (.ptr be 0) (.int (start : Int)) (.int (i : Int)) (.ptr bg 0) v8 v9 (.int (j : Int)) v11
             (.ptr mem.length 0) (.int ((firstIdx (entsOf us) g (es[j]).key) : Int)) (.int 1) (cnt0 + (selBy (mnP us g) es j).length) (by omega)
         have hroom := C.room
-        obtain ⟨m', hex, hA', hlen'⟩ := hA.append C.arr bea (7 * j) es[j] (C.src.ents j hj) (meLoc bk cell bu be start (cnt0 + (selBy (mnP us g) es j).length) i bg v8 v9 j v11 v12 (.int ((firstIdx (entsOf us) g (es[j]).key) : Int)) (.int 1)) (meLoc bk cell bu be start (cnt0 + (selBy (mnP us g) es j).length + 1) i bg v8 v9 j v11 (.ptr mem.length 0) (.int ((firstIdx (entsOf us) g (es[j]).key) : Int)) (.int 1)) (meEtc 10) (.incdec (.var 5) true true .u64) 12
+        obtain ⟨m', hex, hA', hlen', _, _, _⟩ := hA.append C.arr bea (7 * j) es[j] (C.src.ents j hj) (meLoc bk cell bu be start (cnt0 + (selBy (mnP us g) es j).length) i bg v8 v9 j v11 v12 (.int ((firstIdx (entsOf us) g (es[j]).key) : Int)) (.int 1)) (meLoc bk cell bu be start (cnt0 + (selBy (mnP us g) es j).length + 1) i bg v8 v9 j v11 (.ptr mem.length 0) (.int ((firstIdx (entsOf us) g (es[j]).key) : Int)) (.int 1)) (meEtc 10) (.incdec (.var 5) true true .u64) 12
           (by omega) (by omega) (C.lines _ (List.getElem_mem hj)) fuel (by omega) rfl rfl (by simp) (by decide) (by unfold meEtc; exact hsrc) hidx rfl
         refine ⟨_, { mem := m', loc := meLoc bk cell bu be start (cnt0 + (selBy (mnP us g) es j).length + 1) i bg v8 v9 j v11 (.ptr mem.length 0) (.int ((firstIdx (entsOf us) g (es[j]).key) : Int)) (.int 1) }, _, htest, Or.inl ?_, mn_step m' _ _ _ _ _ _ _ _ _ _ _ _ _ _ j hsmallstep, ?_⟩
         · rw [hcT]; unfold mnInner1
@@ -614,5 +659,380 @@ theorem C_me_newkeys {m0 : Mem} {bk bl0 fa cell bu bua be bea bg : Nat} {us es :
   have hj' : j < (selBy (mnP us g) es es.length).length := by omega
   have : (Econf.newKeysOf us es g)[j] = Econf.cpyEntry ((selBy (mnP us g) es es.length)[j]) := by simp [← hm]
   rw [this]; exact d8 j hj'
+
+/-- `first_entry` in terms of the model's `findEntry` -/
+theorem findEntry_eq (es : List Econf.Entry) (g k : List UInt8) :
+    Econf.findEntry es g k = es[firstIdx (entsOf es) g k]? := by
+  induction es with
+  | nil => simp [Econf.findEntry, firstIdx, entsOf]
+  | cons e es ih =>
+    by_cases hm : (e.group == g && e.key == k) = true
+    · have hn : (!(e.group == g) || !(e.key == k)) = false := by
+        have := hm; simp only [Bool.and_eq_true] at this; simp [this.1, this.2]
+      simp [Econf.findEntry, firstIdx, entsOf, List.takeWhile, hm, hn, List.find?]
+    · have hm' : (e.group == g && e.key == k) = false := by simpa using hm
+      have hn : (!(e.group == g) || !(e.key == k)) = true := by
+        cases h1 : (e.group == g) <;> cases h2 : (e.key == k) <;> simp_all
+      have hf : firstIdx (entsOf (e :: es)) g k = firstIdx (entsOf es) g k + 1 := by
+        simp [firstIdx, entsOf, List.takeWhile, hm', hn]
+      rw [hf]
+      simp only [Econf.findEntry, List.find?, hm', List.getElem?_cons_succ]
+      exact ih
+
+/-- the new value: `src ? strdup(src) : strdup("")` -/
+theorem me_newval (LD : Expr) (M : Mem) (loc : List Val) (w : Val) (so : Option (List UInt8))
+    (hw : ∀ mm, (∀ b, b < M.length → mm[b]? = M[b]?) → evalE LD { mem := mm, loc := loc } = .ok (w, { mem := mm, loc := loc })) (hso : OptStr M w so) :
+    ∃ M' bn, evalE (.cond LD (.call "strdup" (.cons LD .nil)) (.call "strdup" (.cons (.strlit []) .nil))) { mem := M, loc := loc } =
+        .ok (.ptr bn 0, { mem := M', loc := loc }) ∧
+      M'.cstr bn 0 = .ok (so.getD []) ∧ M.length ≤ bn ∧ bn < M'.length ∧ M.length ≤ M'.length ∧ (∀ b, b < M.length → M'[b]? = M[b]?) := by
+  have hw0 := hw M (fun b _ => rfl)
+  cases hso with
+  | none =>
+    -- `strdup("")`
+    have hlit := lit_cstr M [] (by simp)
+    obtain ⟨m1, hsd, hmb, hlen, hfr⟩ := strdup_spec (M ++ [({ cells := (([] : List UInt8) ++ [0]).map some, writable := false } : Block)]) M.length 0 [] hlit
+    refine ⟨m1, M.length + 1, ?_, ?_, by omega, by rw [hlen]; simp, by rw [hlen]; simp; omega, fun b hb => by rw [hfr b (by simp; omega)]; exact append_get hb⟩
+    · have hl : (M ++ [({ cells := (([] : List UInt8) ++ [0]).map some, writable := false } : Block)]).length = M.length + 1 := by simp
+      rw [hl] at hsd
+      simp only [evalE, hw0, bind, Except.bind, truth, evalArgs]
+      simp only [hsd]
+      rfl
+    · have := hmb.cstr0 (pre := []) (rest := []) (by simp)
+      simpa using this
+  | some b s hc =>
+    obtain ⟨m1, hsd, hmb, hlen, hfr⟩ := strdup_spec M b 0 s hc
+    refine ⟨m1, M.length, ?_, ?_, Nat.le_refl _, by omega, by omega, hfr⟩
+    · simp only [evalE, hw0, bind, Except.bind, truth, evalArgs, hsd]
+      rfl
+    · simpa using hmb.cstr0 (rest := []) (cstr_nz hc)
+
+/-- every pointer member of an entry names a block that holds a string and is not to be avoided -/
+theorem EntMem.ptr_str {m : Mem} {bs os : Nat} {e : Econf.Entry} {av : List Nat} (h : EntMem m bs os e av) :
+    ∀ k : Nat, k < 5 → ∀ b, m.loadSlot bs ((os : Int) + (k : Int)) = .ok (.ptr b 0) → (∃ str, m.cstr b 0 = .ok str) ∧ b ∉ av := by
+  obtain ⟨bg, g1, g2, g3⟩ := h.grp
+  obtain ⟨bq, k1, k2, k3⟩ := h.key
+  obtain ⟨v, v1, v2, v3⟩ := h.val
+  obtain ⟨vb, b1, b2, b3⟩ := h.cb
+  obtain ⟨va, a1, a2, a3⟩ := h.ca
+  have opt : ∀ (w : Val) (so : Option (List UInt8)) (b : Nat), OptStr m w so → w = .ptr b 0 → ∃ str, m.cstr b 0 = .ok str := by
+    intro w so b hv hw
+    cases hv with
+    | none => cases hw
+    | some b2 str hc => cases hw; exact ⟨str, hc⟩
+  intro k hk b hl
+  have hk' : k = 0 ∨ k = 1 ∨ k = 2 ∨ k = 3 ∨ k = 4 := by omega
+  rcases hk' with rfl | rfl | rfl | rfl | rfl
+  · have : (Except.ok (Val.ptr bg 0) : R Val) = .ok (.ptr b 0) := by rw [← g1]; simpa using hl
+    injection this with this; injection this with this; subst this; exact ⟨⟨_, g2⟩, g3⟩
+  · have : (Except.ok (Val.ptr bq 0) : R Val) = .ok (.ptr b 0) := by rw [← k1]; simpa using hl
+    injection this with this; injection this with this; subst this; exact ⟨⟨_, k2⟩, k3⟩
+  · have : (Except.ok v : R Val) = .ok (.ptr b 0) := by rw [← v1]; simpa using hl
+    injection this with this; exact ⟨opt v _ b v2 this, v3 b this⟩
+  · have : (Except.ok vb : R Val) = .ok (.ptr b 0) := by rw [← b1]; simpa using hl
+    injection this with this; exact ⟨opt vb _ b b2 this, b3 b this⟩
+  · have : (Except.ok va : R Val) = .ok (.ptr b 0) := by rw [← a1]; simpa using hl
+    injection this with this; exact ⟨opt va _ b a2 this, a3 b this⟩
+
+/-- an entry is the same entry in a memory (and block) that keeps its seven words and the blocks its own pointers name -/
+theorem EntMem.reblock' {m m' : Mem} {fa fa' os : Nat} {e : Econf.Entry} {av av' : List Nat} {ablk ablk' : Block}
+    (h : EntMem m fa os e av) (ha : m[fa]? = some ablk) (ha' : m'[fa']? = some ablk') (hl' : ablk'.live = true)
+    (hw : ∀ k, k < 7 → ablk'.slots[os + k]? = ablk.slots[os + k]?)
+    (hm : ∀ k : Nat, k < 5 → ∀ b, m.loadSlot fa ((os : Int) + (k : Int)) = .ok (.ptr b 0) → m'[b]? = m[b]?)
+    (hav : ∀ k : Nat, k < 5 → ∀ b, m.loadSlot fa ((os : Int) + (k : Int)) = .ok (.ptr b 0) → b ∉ av') (hfa : fa' ∉ av') : EntMem m' fa' os e av' := by
+  obtain ⟨bg, g1, g2, g3⟩ := h.grp
+  obtain ⟨bq, k1, k2, k3⟩ := h.key
+  obtain ⟨v, v1, v2, v3⟩ := h.val
+  obtain ⟨vb, b1, b2, b3⟩ := h.cb
+  obtain ⟨va, a1, a2, a3⟩ := h.ca
+  have word : ∀ (k : Nat) (w : Val), k < 7 → m.loadSlot fa ((os + k : Nat) : Int) = .ok w → m'.loadSlot fa' ((os + k : Nat) : Int) = .ok w := by
+    intro k w hk hl
+    obtain ⟨s1, s2, _⟩ := loadSlot_inv hl ha
+    exact loadSlot_of ha' hl' (by rw [hw k hk]; exact s1) s2
+  have optOk : ∀ (k : Nat) (w : Val) (so : Option (List UInt8)), k < 5 → m.loadSlot fa ((os : Int) + (k : Int)) = .ok w → OptStr m w so → OptStr m' w so := by
+    intro k w so hk hl hv
+    cases hv with
+    | none => exact .none
+    | some b str hc => exact .some b str (by rw [cstr_congr (hm k hk b hl)]; exact hc)
+  refine ⟨hfa, ⟨bg, by simpa using word 0 _ (by omega) (by simpa using g1), by rw [cstr_congr (hm 0 (by omega) bg (by simpa using g1))]; exact g2,
+      hav 0 (by omega) bg (by simpa using g1)⟩,
+    ⟨bq, by simpa using word 1 _ (by omega) (by simpa using k1), by rw [cstr_congr (hm 1 (by omega) bq (by simpa using k1))]; exact k2,
+      hav 1 (by omega) bq (by simpa using k1)⟩,
+    ⟨v, by simpa using word 2 _ (by omega) (by simpa using v1), optOk 2 _ _ (by omega) (by simpa using v1) v2, fun b hb => hav 2 (by omega) b (by rw [← hb]; simpa using v1)⟩,
+    ⟨vb, by simpa using word 3 _ (by omega) (by simpa using b1), optOk 3 _ _ (by omega) (by simpa using b1) b2, fun b hb => hav 3 (by omega) b (by rw [← hb]; simpa using b1)⟩,
+    ⟨va, by simpa using word 4 _ (by omega) (by simpa using a1), optOk 4 _ _ (by omega) (by simpa using a1) a2, fun b hb => hav 4 (by omega) b (by rw [← hb]; simpa using a1)⟩,
+    by simpa using word 5 _ (by omega) (by simpa using h.line)⟩
+
+/-- the invariant sees the selected entries through their copies and their groups only -/
+theorem ArrInv.congr {m0 : Mem} {bk bl0 fa : Nat} {names0 : List (List UInt8)} {gl0len cap start : Nat} {ablk0 : Block} {sel sel' : List Econf.Entry} {mem : Mem}
+    (h : ArrInv m0 bk bl0 fa names0 gl0len cap start ablk0 sel mem) (hc : sel'.map Econf.cpyEntry = sel.map Econf.cpyEntry) :
+    ArrInv m0 bk bl0 fa names0 gl0len cap start ablk0 sel' mem := by
+  have hl : sel'.length = sel.length := by simpa using congrArg List.length hc
+  have hg : sel'.map (·.group) = sel.map (·.group) := by
+    have := congrArg (List.map (·.group)) hc
+    simpa [List.map_map, Function.comp_def, Econf.cpyEntry] using this
+  obtain ⟨bl', gl', d1, d2, d3, d4, d5, d6, d7, d8⟩ := h.dest
+  refine ⟨h.agree, h.grows, ⟨bl', gl', d1, d2, d3, d4, d5, by rw [hl]; exact d6, by rw [hg]; exact d7, fun j hj => ?_⟩, h.arr⟩
+  have hj' : j < sel.length := by omega
+  have : Econf.cpyEntry sel'[j] = Econf.cpyEntry sel[j] := by
+    have h1 : (sel'.map Econf.cpyEntry)[j]? = (sel.map Econf.cpyEntry)[j]? := by rw [hc]
+    simpa [hj, hj'] using h1
+  rw [this]; exact d8 j hj'
+
+/-- `&(*fe)[merge_length]` -/
+theorem dst_eval (mm : Mem) (loc : List Val) (cell fa a : Nat) (cblk ablk : Block) (hl1 : loc[1]? = some (.ptr cell 0)) (hl5 : loc[5]? = some (.int (a : Int)))
+    (hc1 : mm[cell]? = some cblk) (hc2 : cblk.live = true) (hc3 : cblk.slots[0]? = some (.ptr fa 0))
+    (ha1 : mm[fa]? = some ablk) (ha2 : ablk.live = true) (ha : 7 * a ≤ ablk.slots.length) :
+    evalE meDst { mem := mm, loc := loc } = .ok (.ptr fa ((7 * a : Nat) : Int), { mem := mm, loc := loc }) := by
+  have hl0 : mm.loadSlot cell 0 = .ok (.ptr fa 0) := by simpa using loadSlot_of (i := 0) hc1 hc2 hc3 (by simp)
+  have hsx : slotAdd mm fa 0 ((a : Int) * 7) = .ok (.ptr fa ((a : Int) * 7)) := by
+    have : (0 : Int) ≤ (a : Int) * 7 ∧ (a : Int) * 7 ≤ (ablk.slots.length : Int) := by omega
+    simp [slotAdd, Mem.block, ha1, ha2, this, bind, Except.bind]
+  have e : (((7 * a : Nat)) : Int) = (a : Int) * 7 := by omega
+  rw [e]
+  exact evalE_sidx _ _ _ _ fa 0 (a : Int) 7 _ (by simp [evalE, evalL, readPlace, hl1, hl0, bind, Except.bind])
+    (by simp [evalE, evalL, readPlace, hl5, bind, Except.bind]) (by simpa using hsx)
+
+/-- the value replacement of `merge_existing_groups`: if the override defines the key, the copy's value (a block made by `strdup`
+    a moment ago, nobody else's) is freed and replaced by a copy of the override's value (the empty string if it has none) -/
+theorem me_override {m0 : Mem} {bk bl0 fa cell be bea : Nat} {es : List Econf.Entry} {names0 : List (List UInt8)} {gl0len cap start : Nat} {ablk0 : Block}
+    {sel : List Econf.Entry} {M M1 : Mem}
+    (C : ArrCtx m0 bk bl0 fa cell gl0len cap) (hSe : SrcMem m0 be bea es [bk, bl0, fa]) (u : Econf.Entry)
+    (hM : ArrInv m0 bk bl0 fa names0 gl0len cap start ablk0 sel M)
+    (h1 : ArrInv m0 bk bl0 fa names0 gl0len cap start ablk0 (sel ++ [u]) M1) (hlen : M.length ≤ M1.length)
+    (hfresh : ∀ bv, M1.loadSlot fa (((7 * (start + sel.length) : Nat) : Int) + 2) = .ok (.ptr bv 0) → M.length < bv ∧
+        (∀ k : Nat, k < 5 → k ≠ 2 → M1.loadSlot fa (((7 * (start + sel.length) : Nat) : Int) + (k : Int)) ≠ .ok (.ptr bv 0)) ∧
+        ∀ bl3 gl3, GlMem M1 bk bl3 gl3 → bl3 ≠ bv ∧ ∀ x, x ∈ gl3 → x.1 ≠ bv)
+    (hwords : ∀ ablkM ablk', M[fa]? = some ablkM → M1[fa]? = some ablk' → ∀ k, k < 7 * (start + sel.length) → ablk'.slots[k]? = ablkM.slots[k]?)
+    (loc : List Val) (hl1 : loc[1]? = some (.ptr cell 0)) (hl3 : loc[3]? = some (.ptr be 0))
+    (hl5 : loc[5]? = some (.int ((start + sel.length : Nat) : Int))) (hl10 : loc[10]? = some (.int ((firstIdx (entsOf es) u.group u.key : Nat) : Int)))
+    (fuel : Nat) :
+    ∃ M3, exec fuel meOverride { mem := M1, loc := loc } = .normal { mem := M3, loc := loc } ∧
+      ArrInv m0 bk bl0 fa names0 gl0len cap start ablk0 (sel ++ [Econf.overrideValue es u]) M3 ∧ M1.length ≤ M3.length := by
+  have hS1 : SrcMem M1 be bea es [bk, bl0, fa] := hSe.mono h1.agree
+  have htest := kf_test 3 10 M1 loc be bea es _ (firstIdx (entsOf es) u.group u.key) hS1 hl3 hl10
+  have hfe := findEntry_eq es u.group u.key
+  by_cases hj : firstIdx (entsOf es) u.group u.key < es.length
+  · -- the override defines the key (first at `j`)
+    have hsome : Econf.findEntry es u.group u.key = some es[firstIdx (entsOf es) u.group u.key] := by
+      rw [hfe]; exact List.getElem?_eq_getElem hj
+    have hov : Econf.overrideValue es u = { Econf.cpyEntry u with value := some ((es[firstIdx (entsOf es) u.group u.key]).value.getD []) } := by
+      simp [Econf.overrideValue, hsome]
+    obtain ⟨bl', gl', d1, d2, d3, d4, d5, d6, d7, d8⟩ := h1.dest
+    obtain ⟨ablk1, a1, a2, a3, a4, a5, a6⟩ := h1.arr
+    obtain ⟨ablkM, aM1, aM2, _, _, aM5, _⟩ := hM.arr
+    obtain ⟨cblk, c1, c2, c3⟩ := C.cellb
+    have hclt : cell < m0.length := (List.getElem?_eq_some_iff.1 c1).1
+    have hc1 : M1[cell]? = some cblk := by rw [h1.agree cell hclt C.cellav]; exact c1
+    have hcav := C.cellav
+    simp only [List.mem_cons, List.not_mem_nil, or_false, not_or] at hcav
+    have hgrow0 : m0.length ≤ M.length := hM.grows
+    have hfalt := C.fa_lt
+    have hbklt := C.bk_lt
+    -- the new element and its value word
+    have hlast : (sel ++ [u])[sel.length]'(by simp) = u := by simp
+    have hEnew : EntMem M1 fa (7 * (start + sel.length)) (Econf.cpyEntry u) [bk, bl'] := by
+      have := d8 sel.length (by simp)
+      rwa [hlast] at this
+    obtain ⟨v, v1, v2, v3⟩ := hEnew.val
+    have hacap : 7 * (start + sel.length) + 7 ≤ ablk1.slots.length := by
+      obtain ⟨s1, s2, s3⟩ := loadSlot_inv (i := 7 * (start + sel.length) + 5) (by simpa using hEnew.line) a1
+      have := (List.getElem?_eq_some_iff.1 s1).1
+      omega
+    have hdst : ∀ mm, mm[cell]? = some cblk → (∃ ab, mm[fa]? = some ab ∧ ab.live = true ∧ 7 * (start + sel.length) ≤ ab.slots.length) →
+        evalE meDst { mem := mm, loc := loc } = .ok (.ptr fa ((7 * (start + sel.length) : Nat) : Int), { mem := mm, loc := loc }) := by
+      intro mm hcm ⟨ab, hab1, hab2, hab3⟩
+      exact dst_eval mm loc cell fa (start + sel.length) cblk ab hl1 hl5 hcm c2 c3 hab1 hab2 hab3
+    -- `free(copy.value)`: the memory afterwards, and that only the value's own block is gone
+    have hfree : ∃ M2, exec fuel (.expr (.call "free" (.cons (.load (.slot meDst 2) .ptr) .nil))) { mem := M1, loc := loc } = .normal { mem := M2, loc := loc } ∧
+        M2.length = M1.length ∧ (∀ b, (∀ bv, v = .ptr bv 0 → b ≠ bv) → M2[b]? = M1[b]?) := by
+      have hd1 := hdst M1 hc1 ⟨ablk1, a1, a2, by omega⟩
+      have hld : evalE (.load (.slot meDst 2) .ptr) { mem := M1, loc := loc } = .ok (v, { mem := M1, loc := loc }) := by
+        generalize meDst = D at hd1 ⊢
+        simp only [evalE, evalL, hd1, bind, Except.bind, readPlace]
+        have : ((7 * (start + sel.length) : Nat) : Int) + ((2 : Nat) : Int) = ((7 * (start + sel.length) : Nat) : Int) + 2 := by simp
+        rw [this, v1]
+      generalize (Econf.cpyEntry u).value = so at v2
+      cases v2 with
+      | none =>
+        refine ⟨M1, ?_, rfl, fun b _ => rfl⟩
+        generalize (Expr.load (.slot meDst 2) .ptr) = LDv at hld ⊢
+        simp [exec, evalE, evalArgs, hld, builtin, bind, Except.bind]
+      | some bv str hc =>
+        obtain ⟨vblk, w1, w2⟩ : ∃ vblk, M1[bv]? = some vblk ∧ vblk.live = true := by
+          cases hb : M1[bv]? with
+          | none => simp [Mem.cstr, Mem.block, hb, bind, Except.bind] at hc
+          | some vblk =>
+            refine ⟨vblk, rfl, ?_⟩
+            by_cases hl : vblk.live = true
+            · exact hl
+            · simp [Mem.cstr, Mem.block, hb, hl, bind, Except.bind] at hc
+        have hfs := free_spec M1 bv vblk w1 w2
+        refine ⟨M1.set bv { vblk with live := false }, ?_, by simp, fun b hb => set_other (hb bv rfl)⟩
+        generalize (Expr.load (.slot meDst 2) .ptr) = LDv at hld ⊢
+        simp [exec, evalE, evalArgs, hld, hfs, bind, Except.bind]
+    obtain ⟨M2, hfreeex, hM2len, hM2fr⟩ := hfree
+    have hbv : ∀ bv, v = .ptr bv 0 → M.length < bv ∧
+        (∀ k : Nat, k < 5 → k ≠ 2 → M1.loadSlot fa (((7 * (start + sel.length) : Nat) : Int) + (k : Int)) ≠ .ok (.ptr bv 0)) ∧
+        ∀ bl3 gl3, GlMem M1 bk bl3 gl3 → bl3 ≠ bv ∧ ∀ x, x ∈ gl3 → x.1 ≠ bv := fun bv hv => hfresh bv (by rw [← hv]; exact v1)
+    have hkeepM : ∀ b, b ≤ M.length → M2[b]? = M1[b]? := fun b hb => hM2fr b (fun bv hv => by have := (hbv bv hv).1; omega)
+    have hc2' : M2[cell]? = some cblk := by rw [hkeepM cell (by omega)]; exact hc1
+    have ha2' : M2[fa]? = some ablk1 := by rw [hkeepM fa (by omega)]; exact a1
+    have hagree2 : ∀ b, b < m0.length → b ∉ [bk, bl0, fa] → M2[b]? = m0[b]? := fun b hb hav => by
+      rw [hkeepM b (by omega)]; exact h1.agree b hb hav
+    -- the override's value for this key
+    obtain ⟨w, w1, w2, w3⟩ := (hSe.ents (firstIdx (entsOf es) u.group u.key) hj).val
+    have hbealt : bea < m0.length := loadSlot_lt w1
+    have hw2 : OptStr M2 w (es[(firstIdx (entsOf es) u.group u.key)]).value := w2.mono (fun b hb => hagree2 b (w2.lt b hb) (w3 b hb))
+    have hwld : ∀ mm, (∀ b, b < M2.length → mm[b]? = M2[b]?) →
+        evalE (.load (.slot (meEtc 10) 2) .ptr) { mem := mm, loc := loc } = .ok (w, { mem := mm, loc := loc }) := by
+      intro mm hmm
+      have hgm2 : m0.length ≤ M2.length := by rw [hM2len]; omega
+      have hSm : SrcMem mm be bea es [bk, bl0, fa] := hSe.mono (fun b hb hav => by rw [hmm b (by omega)]; exact hagree2 b hb hav)
+      have hwm : mm.loadSlot bea (((7 * (firstIdx (entsOf es) u.group u.key) : Nat) : Int) + ((2 : Nat) : Int)) = .ok w := by
+        rw [loadSlot_congr (show mm[bea]? = m0[bea]? by rw [hmm bea (by omega)]; exact hagree2 bea hbealt hSe.arrav)]
+        simpa using w1
+      have hwu : w ≠ .undef := by
+        have : ∀ so, OptStr m0 w so → w ≠ .undef := by intro so h; cases h <;> simp
+        exact this _ w2
+      exact kf_member 3 10 mm loc be bea es _ (firstIdx (entsOf es) u.group u.key) 2 w hSm hj hl3 hl10 hwm hwu
+    obtain ⟨M2', bn, hnv, hbnstr, hbnge, hbnlt, hlen2', hfr2'⟩ := me_newval (.load (.slot (meEtc 10) 2) .ptr) M2 loc w (es[(firstIdx (entsOf es) u.group u.key)]).value hwld hw2
+    have hfaM2 : fa < M2.length := by rw [hM2len]; omega
+    have ha2'' : M2'[fa]? = some ablk1 := by rw [hfr2' fa hfaM2]; exact ha2'
+    have hst := storeSlot_of (i := 7 * (start + sel.length) + 2) (.ptr bn 0) ha2'' a2 a3 (by omega)
+    have hassign : exec fuel (.expr (.assign (.slot meDst 2) (.cond (.load (.slot (meEtc 10) 2) .ptr) (.call "strdup" (.cons (.load (.slot (meEtc 10) 2) .ptr) .nil))
+        (.call "strdup" (.cons (.strlit []) .nil))) .ptr)) { mem := M2, loc := loc } =
+        .normal { mem := M2'.set fa { ablk1 with slots := ablk1.slots.set (7 * (start + sel.length) + 2) (.ptr bn 0) }, loc := loc } := by
+      have hd2 := hdst M2 hc2' ⟨ablk1, ha2', a2, by omega⟩
+      generalize meDst = D at hd2 ⊢
+      generalize (Expr.cond (.load (.slot (meEtc 10) 2) .ptr) (.call "strdup" (.cons (.load (.slot (meEtc 10) 2) .ptr) .nil)) (.call "strdup" (.cons (.strlit []) .nil))) = CE at hnv ⊢
+      have hst' : M2'.storeSlot fa (((7 * (start + sel.length) : Nat) : Int) + ((2 : Nat) : Int)) (.ptr bn 0) =
+          .ok (M2'.set fa { ablk1 with slots := ablk1.slots.set (7 * (start + sel.length) + 2) (.ptr bn 0) }) := by
+        have : ((7 * (start + sel.length) : Nat) : Int) + ((2 : Nat) : Int) = ((7 * (start + sel.length) + 2 : Nat) : Int) := by omega
+        rw [this]; exact hst
+      simp only [exec, evalE, evalL, hd2, hnv, bind, Except.bind]
+      have hst2 := hst
+      simp only [Int.natCast_add, Int.natCast_mul] at hst2
+      have hst3 := hst2
+      simp at hst3
+      simp [convert, writePlace, Except.map, hst3]
+    refine ⟨M2'.set fa { ablk1 with slots := ablk1.slots.set (7 * (start + sel.length) + 2) (.ptr bn 0) }, ?_, ?_, by rw [List.length_set]; omega⟩
+    · unfold meOverride
+      rw [exec_ite_true (by simpa [hj] using htest), exec_seq_normal hfreeex]
+      exact hassign
+    · -- the invariant with the replaced value
+      have hM3fa : (M2'.set fa { ablk1 with slots := ablk1.slots.set (7 * (start + sel.length) + 2) (.ptr bn 0) })[fa]? = some { ablk1 with slots := ablk1.slots.set (7 * (start + sel.length) + 2) (.ptr bn 0) } := by
+        rw [List.getElem?_set_self (by omega)]
+      have hkeep3 : ∀ b, b < M1.length → b ≠ fa → (∀ bv, v = .ptr bv 0 → b ≠ bv) → (M2'.set fa { ablk1 with slots := ablk1.slots.set (7 * (start + sel.length) + 2) (.ptr bn 0) })[b]? = M1[b]? := by
+        intro b hb h1' h2'
+        rw [set_other h1', hfr2' b (by omega), hM2fr b h2']
+      have hlow : ∀ b, b ≤ M.length → ∀ bv, v = .ptr bv 0 → b ≠ bv := fun b hb bv hv => by have := (hbv bv hv).1; omega
+      have hbl'fa : bl' ≠ fa := by
+        rcases d2 with e | e
+        · rw [e]; exact Ne.symm C.fa_ne.2
+        · omega
+      have hbl'lt : bl' < M1.length := by
+        obtain ⟨gb, g1, _⟩ := d1.arr
+        exact (List.getElem?_eq_some_iff.1 g1).1
+      have hG3 : GlMem (M2'.set fa { ablk1 with slots := ablk1.slots.set (7 * (start + sel.length) + 2) (.ptr bn 0) }) bk bl' gl' := d1.mono_of
+        (hkeep3 bk (by omega) (Ne.symm C.fa_ne.1) (hlow bk (by omega)))
+        (hkeep3 bl' hbl'lt hbl'fa (fun bv hv => ((hbv bv hv).2.2 bl' gl' d1).1))
+        (fun b str hc ⟨x, hx, hxb⟩ => hkeep3 b (cstr_lt hc) (fun hh => no_cstr a1 a4 str (hh ▸ hc))
+          (fun bv hv => by rw [← hxb]; exact ((hbv bv hv).2.2 bl' gl' d1).2 x hx))
+      have hnewlen : (ablk1.slots.set (7 * (start + sel.length) + 2) (Val.ptr bn 0)).length = ablk1.slots.length := by simp
+      refine ⟨fun b hb hav => ?_, by rw [List.length_set]; omega, ⟨bl', gl', hG3, d2, ?_, d4, d5, by simpa using d6, ?_, ?_⟩,
+        ⟨{ ablk1 with slots := ablk1.slots.set (7 * (start + sel.length) + 2) (.ptr bn 0) }, hM3fa, a2, a3, a4, by rw [hnewlen]; exact a5, fun k hk => ?_⟩⟩
+      · -- blocks of the start memory
+        have hav' := hav
+        simp only [List.mem_cons, List.not_mem_nil, or_false, not_or] at hav'
+        rw [hkeep3 b (by omega) hav'.2.2 (hlow b (by omega))]
+        exact h1.agree b hb hav
+      · intro blk hb
+        rw [hkeep3 bk (by omega) (Ne.symm C.fa_ne.1) (hlow bk (by omega))] at hb
+        exact d3 blk hb
+      · -- the groups are those of the entry copied
+        rw [d7]
+        simp [hov, Econf.cpyEntry]
+      · intro j hjl
+        have hcast : ∀ (o k : Nat), ((o : Int) + (k : Int)) = ((o + k : Nat) : Int) := by intros; omega
+        have hfaav : fa ∉ [bk, bl'] := by
+          simp only [List.mem_cons, List.not_mem_nil, or_false, not_or]
+          exact ⟨C.fa_ne.1, Ne.symm hbl'fa⟩
+        by_cases hjs : j < sel.length
+        · -- an element copied earlier: its words are those it had before this round, its strings are older than the freed block
+          have hold := d8 j (by simp; omega)
+          have hel1 : (sel ++ [u])[j]'(by simp; omega) = sel[j] := List.getElem_append_left hjs
+          have hel2 : (sel ++ [Econf.overrideValue es u])[j]'hjl = sel[j] := List.getElem_append_left hjs
+          rw [hel1] at hold
+          rw [hel2]
+          obtain ⟨blM, glM, _, _, _, _, _, _, _, dM8⟩ := hM.dest
+          have hMent := dM8 j hjs
+          have hptr : ∀ k : Nat, k < 5 → ∀ b, M1.loadSlot fa (((7 * (start + j) : Nat) : Int) + (k : Int)) = .ok (.ptr b 0) →
+              b < M.length ∧ (∃ str, M1.cstr b 0 = .ok str) ∧ b ∉ [bk, bl'] := by
+            intro k hk b hl
+            have hl' := hl; rw [hcast] at hl'
+            obtain ⟨s1, s2, s3⟩ := loadSlot_inv hl' a1
+            have hwM := hwords ablkM ablk1 aM1 a1 (7 * (start + j) + k) (by omega)
+            have hlM : M.loadSlot fa (((7 * (start + j) : Nat) : Int) + (k : Int)) = .ok (.ptr b 0) := by
+              rw [hcast]; exact loadSlot_of aM1 aM2 (by rw [← hwM]; exact s1) (by simp)
+            obtain ⟨⟨str, hc⟩, _⟩ := hMent.ptr_str k hk b hlM
+            exact ⟨cstr_lt hc, hold.ptr_str k hk b hl⟩
+          refine hold.reblock' a1 hM3fa a2 (fun k hk => ?_) (fun k hk b hl => ?_) (fun k hk b hl => (hptr k hk b hl).2.2) hfaav
+          · show (ablk1.slots.set (7 * (start + sel.length) + 2) (Val.ptr bn 0))[7 * (start + j) + k]? = _
+            rw [List.getElem?_set_ne (by omega)]
+          · obtain ⟨h1', ⟨str, hc⟩, _⟩ := hptr k hk b hl
+            exact hkeep3 b (cstr_lt hc) (fun hh => no_cstr a1 a4 str (hh ▸ hc)) (hlow b (by omega))
+        · -- the new element: the other members as copied, the value the override's
+          have hje : j = sel.length := by simp at hjl; omega
+          subst hje
+          have hlast' : (sel ++ [Econf.overrideValue es u])[sel.length]'hjl = Econf.overrideValue es u := by simp
+          rw [hlast', hov]
+          obtain ⟨bg, g1, g2, g3⟩ := hEnew.grp
+          obtain ⟨bq, k1, k2, k3⟩ := hEnew.key
+          obtain ⟨vb, b1, b2, b3⟩ := hEnew.cb
+          obtain ⟨va, c1', c2', c3'⟩ := hEnew.ca
+          have ldnew : ∀ (k : Nat) (w : Val), k < 7 → k ≠ 2 → M1.loadSlot fa (((7 * (start + sel.length) : Nat) : Int) + (k : Int)) = .ok w →
+              Mem.loadSlot (M2'.set fa { ablk1 with slots := ablk1.slots.set (7 * (start + sel.length) + 2) (.ptr bn 0) }) fa (((7 * (start + sel.length) : Nat) : Int) + (k : Int)) = .ok w := by
+            intro k w hk hk2 hl
+            rw [hcast] at hl ⊢
+            obtain ⟨s1, s2, _⟩ := loadSlot_inv hl a1
+            exact loadSlot_of hM3fa a2 (by show (ablk1.slots.set (7 * (start + sel.length) + 2) (Val.ptr bn 0))[7 * (start + sel.length) + k]? = _; rw [List.getElem?_set_ne (by omega)]; exact s1) s2
+          have strk : ∀ (k : Nat) (b : Nat) (str : List UInt8), k < 5 → k ≠ 2 → M1.loadSlot fa (((7 * (start + sel.length) : Nat) : Int) + (k : Int)) = .ok (.ptr b 0) →
+              M1.cstr b 0 = .ok str → Mem.cstr (M2'.set fa { ablk1 with slots := ablk1.slots.set (7 * (start + sel.length) + 2) (.ptr bn 0) }) b 0 = .ok str := by
+            intro k b str hk hk2 hl hc
+            rw [cstr_congr (hkeep3 b (cstr_lt hc) (fun hh => no_cstr a1 a4 str (hh ▸ hc)) (fun bv hv hh => (hbv bv hv).2.1 k hk hk2 (by rw [← hh]; exact hl)))]
+            exact hc
+          have optk : ∀ (k : Nat) (w : Val) (so : Option (List UInt8)), k < 5 → k ≠ 2 → M1.loadSlot fa (((7 * (start + sel.length) : Nat) : Int) + (k : Int)) = .ok w →
+              OptStr M1 w so → OptStr (M2'.set fa { ablk1 with slots := ablk1.slots.set (7 * (start + sel.length) + 2) (.ptr bn 0) }) w so := by
+            intro k w so hk hk2 hl hv
+            cases hv with
+            | none => exact .none
+            | some b str hc => exact .some b str (strk k b str hk hk2 hl hc)
+          have hbn3 : Mem.cstr (M2'.set fa { ablk1 with slots := ablk1.slots.set (7 * (start + sel.length) + 2) (.ptr bn 0) }) bn 0 = .ok ((es[(firstIdx (entsOf es) u.group u.key)]).value.getD []) := by
+            rw [cstr_congr (set_other (show bn ≠ fa by omega))]; exact hbnstr
+          have hval3 : Mem.loadSlot (M2'.set fa { ablk1 with slots := ablk1.slots.set (7 * (start + sel.length) + 2) (.ptr bn 0) }) fa (((7 * (start + sel.length) : Nat) : Int) + 2) = .ok (.ptr bn 0) := by
+            have := loadSlot_of (i := 7 * (start + sel.length) + 2) hM3fa a2 (by show (ablk1.slots.set (7 * (start + sel.length) + 2) (Val.ptr bn 0))[7 * (start + sel.length) + 2]? = _; rw [List.getElem?_set_self (by omega)]) (by simp)
+            rw [← hcast] at this; simpa using this
+          refine ⟨hfaav, ⟨bg, by simpa using ldnew 0 _ (by omega) (by omega) (by simpa using g1), strk 0 bg _ (by omega) (by omega) (by simpa using g1) g2, g3⟩,
+            ⟨bq, by simpa using ldnew 1 _ (by omega) (by omega) (by simpa using k1), strk 1 bq _ (by omega) (by omega) (by simpa using k1) k2, k3⟩,
+            ⟨.ptr bn 0, hval3, .some bn _ hbn3, fun b hb => ?_⟩,
+            ⟨vb, by simpa using ldnew 3 _ (by omega) (by omega) (by simpa using b1), optk 3 _ _ (by omega) (by omega) (by simpa using b1) b2, b3⟩,
+            ⟨va, by simpa using ldnew 4 _ (by omega) (by omega) (by simpa using c1'), optk 4 _ _ (by omega) (by omega) (by simpa using c1') c2', c3'⟩,
+            by simpa [Econf.cpyEntry] using ldnew 5 _ (by omega) (by omega) (by simpa [Econf.cpyEntry] using hEnew.line)⟩
+          injection hb with hb _
+          subst hb
+          simp only [List.mem_cons, List.not_mem_nil, or_false, not_or]
+          omega
+      · show (ablk1.slots.set (7 * (start + sel.length) + 2) (Val.ptr bn 0))[k]? = _
+        rw [List.getElem?_set_ne (by omega)]
+        exact a6 k hk
+  · -- the override does not define the key: the copy stays as it is
+    have hnone : Econf.findEntry es u.group u.key = none := by
+      rw [hfe]; exact List.getElem?_eq_none (by omega)
+    have hov : Econf.overrideValue es u = Econf.cpyEntry u := by simp [Econf.overrideValue, hnone]
+    refine ⟨M1, ?_, ?_, Nat.le_refl _⟩
+    · unfold meOverride
+      rw [exec_ite_false (by simpa [hj] using htest)]; simp [exec]
+    · rw [hov]
+      exact h1.congr (by simp [Econf.cpyEntry])
 
 end LeafKf
